@@ -334,7 +334,7 @@ impl Contour {
                 PointType::OffCurve => offs.push_back(kurbo_point),
                 PointType::Curve => {
                     match offs.make_contiguous() {
-                        [] => return Err(ConvertContourError::new(ErrorKind::BadPoint)),
+                        [] => path.line_to(kurbo_point),
                         [p1] => path.quad_to(*p1, kurbo_point),
                         [p1, p2] => path.curve_to(*p1, *p2, kurbo_point),
                         _ => return Err(ConvertContourError::new(ErrorKind::TooManyOffCurves)),
